@@ -1,5 +1,5 @@
 SPECIFICATION Spec
 CONSTRAINT TrackL
-INVARIANTS InUnitInterval RingOK CarryOK RunDeterministic
+INVARIANTS InUnitInterval RingOK CarryOK RunDeterministic SeedMatters StreamAdvances
 POSTCONDITION PrintMaxL
 CHECK_DEADLOCK FALSE
